@@ -11,9 +11,15 @@ func vh_hidden_scalar(m int) {
 	// first observations (this is where a cache would be filled)
 	b0 := s.Bits()
 	e0 := s.Encode()
-	_, _ = b0, e0
+	_ = b0
 	_ = s.IsZero()
+	_ = s.IsOne()
 	_ = s.Equal(t)
+	_ = s.LessOrEqual(t)
+	// a caller may do what it likes with the slices it was handed
+	for i := range e0 {
+		e0[i] ^= 0xa5
+	}
 	switch m {
 	case 0:
 		s.Add(t)
@@ -43,6 +49,8 @@ func vh_hidden_scalar(m int) {
 		vAssume(s.UnmarshalBinary(vNondetBytes("in", 32)) == nil)
 	case 13:
 		s.S = t.S // the limbs are an exported field
+	case 14:
+		// no mutation at all: observe, scribble, observe
 	}
 	f := &Scalar{S: s.S}
 	vObserve("bits", s.Bits())
@@ -51,6 +59,8 @@ func vh_hidden_scalar(m int) {
 	vObserve("enc_fresh", f.Encode())
 	vObserve("isz", s.IsZero())
 	vObserve("isz_fresh", f.IsZero())
+	vObserve("isone", s.IsOne())
+	vObserve("isone_fresh", f.IsOne())
 	vObserve("eq", s.Equal(u))
 	vObserve("eq_fresh", f.Equal(u))
 	vObserve("le", s.LessOrEqual(u))
@@ -60,10 +70,16 @@ func vh_hidden_scalar(m int) {
 func vh_hidden_element(m int) {
 	e := vElement("e")
 	q := vElement("q")
-	_ = e.Encode()
-	_ = e.EncodeUncompressed()
+	c0 := e.Encode()
+	u0 := e.EncodeUncompressed()
 	_ = e.IsIdentity()
 	_ = e.Equal(q)
+	for i := range c0 {
+		c0[i] ^= 0xa5
+	}
+	for i := range u0 {
+		u0[i] ^= 0xa5
+	}
 	switch m {
 	case 0:
 		e.Add(q)
@@ -85,6 +101,8 @@ func vh_hidden_element(m int) {
 		vAssume(e.Decode(vNondetBytes("in", 65)) == nil)
 	case 9:
 		vAssume(e.Decode(vNondetBytes("in", 1)) == nil)
+	case 10:
+		// no mutation at all
 	}
 	f := &Element{x: e.x, y: e.y, z: e.z}
 	vObserve("enc", e.Encode())
